@@ -56,7 +56,8 @@ def _key(prop, verdict, ctx):
 def c02(pid, tier, seed, scratch):
     bindir = C.build()
     X.ensure_shim()
-    n_hist, ops, limit = (7, 12, 220) if tier == "quick" else (41, 30, None)
+    # thorough: ~18 000 images (about 40 minutes on the 16 idle cores); every operation boundary is kept, interior crash points are sampled
+    n_hist, ops, limit = (7, 12, 220) if tier == "quick" else (31, 30, 600)
     rep = _report("crash-images[process-crash]", seed,
                   "histories of create/put (text, chunked text, binary incl. log-growing sizes)/update/delete/commit/apply_ticket/vacuum/reopen run under the "
                   "LD_PRELOAD recorder; the state after every mutating file-system call (completed calls persist) is an image; each distinct image is opened "
@@ -84,7 +85,7 @@ def c02(pid, tier, seed, scratch):
         _count(rep, "log_growths_in_histories", X.count_growths(rec["states"]))
         if edge:
             _count(rep, "records_steered_to_end_in_last_48_bytes_of_log_region", len(rec.get("edge_ops", [])))
-        imgs = X.process_crash_images(rec, limit=(min(limit, 120) if (limit and (wrap or edge)) else limit), rng=rng, keep_ops={o for e in rec.get("edge_ops", []) for o in (e, e + 1)})
+        imgs = X.process_crash_images(rec, limit=(min(limit, 120) if (tier == "quick" and (wrap or edge)) else limit), rng=rng, keep_ops={o for e in rec.get("edge_ops", []) for o in (e, e + 1)})
         obs = X.probe(bindir, [i["bytes"] for i in imgs], os.path.join(wd, "probe"))
         for img, o in zip(imgs, obs):
             rep["evaluations"] += 1
